@@ -211,7 +211,9 @@ def _expand_task(t):
         # delivery points of this last transition: from the quiescence at which ev was delivered to the end
         qp = k1.quiescent_points
         start = qp[len(script)] if len(qp) > len(script) else 0
-        end = k1.npoints
+        # (a window on the unchanged tree has well under 100 delivery points; a master gone wild - kill / respawn storm - has
+        # thousands: the first 600 show what is wrong and the check stays bounded)
+        end = min(k1.npoints, start + 600)
         out.append({"ev": ev, "canon": c, "bad": bad, "window": (start, end), "labels": k1.point_labels[start:end]})
     # startup window (no event yet): points 0 .. first quiescence
     return {"script": script, "succ": out, "startup": (0, k0.quiescent_points[0] if k0.quiescent_points else k0.npoints) if not script else None,
@@ -293,11 +295,19 @@ def explore(params, depth, mid=True):
             step = 12
             for a in range(lo, hi, step):
                 tasks.append((p, s, a, min(hi, a + step)))
-        for r in par.pmap(_mid_task, tasks, chunksize=4):
-            mid_runs += r["n"]
-            mid_outcomes += r["outcomes"]
-            for fp, text, idx, ev, label in r["bad"]:
-                note(fp, text, r["script"], (idx, ev, label))
+        import time as _t
+        t_mid = _t.time()
+        B = 4000
+        for b0 in range(0, len(tasks), B):
+            for r in par.pmap(_mid_task, tasks[b0:b0 + B], chunksize=4):
+                mid_runs += r["n"]
+                mid_outcomes += r["outcomes"]
+                for fp, text, idx, ev, label in r["bad"]:
+                    note(fp, text, r["script"], (idx, ev, label))
+            if _unknown(viols) and _t.time() - t_mid > 90:
+                # violations are already established: the rest of the product would only repeat them (on a tree where the
+                # property holds there is nothing in `viols` and the product is always completed)
+                break
     return {"states": states, "transitions": transitions, "mid_runs": mid_runs, "viols": list(viols.values()),
             "samples": samples, "mid_outcomes": mid_outcomes}
 
@@ -449,6 +459,13 @@ def boot_failure_part():
     return len(cells), viols
 
 
+def _unknown(fps):
+    """fingerprints that are not recorded known findings (those occur on the unchanged tree and must not cut the search short)"""
+    from vlib import findings
+    known = set(findings.known_for("C03"))
+    return [fp for fp in fps if fp not in known]
+
+
 def param_sets(thorough):
     P = []
     if thorough:
@@ -472,7 +489,11 @@ def run(ctx):
     viols = []
     samples = []
     per = {}
+    import time as _t
+    t_run = _t.time()
     for params in param_sets(ctx.thorough):
+        if _unknown(v["fingerprint"] for v in viols) and _t.time() - t_run > 300:
+            break           # see explore(): only ever taken when violations other than the recorded findings have been found already
         d = depth if (params["term"] == "now" or ctx.thorough) else depth - 1
         st = explore(params, d, mid=(params["term"] != "never" or ctx.thorough))
         for k in tot:
